@@ -280,6 +280,38 @@ def r13_3(ctx):
                    f"after {what} a path returns Ok(status) without recording HasEscaped: the value is then treated as escape-free and as_str() returns the raw escape text")
 
 
+def r13_9(ctx):
+    """a lookup in a still-raw owned lazy value is answered by its one-level parse: LazyRaw::get reads the raw text only
+    through the type's own accessors (first-byte kind, load / parse).  A textual pre-check on the raw bytes (contains,
+    find, starts_with with the wanted key) answers `absent` for members whose name is spelled with escapes"""
+    prog = ctx.prog()
+    fs = [g for g in prog.fns.values() if g.crate == "sonic_rs" and (g.self_adt or "").endswith("lazyvalue::owned::LazyRaw") and g.name in ("get", "get_mut")]
+    ctx.floor("R13.9", "LazyRaw lookup methods", len(fs), 1)
+    for f in fs:
+        bad = []
+        for g in prog.with_closures(f):
+            for b, t in g.calls():
+                callee = prog.fns.get(t["callee"])
+                if callee is not None and (callee.self_adt or "").endswith("lazyvalue::owned::LazyRaw"):
+                    continue
+                for a in t["args"]:
+                    l = op_local(a)
+                    if l is None:
+                        continue
+                    sl, leaves = backward_slice(g, [l], through_calls=False)
+                    if any(lf[0] == "place" and "raw" in [e[2] for e in lf[1][1] if isinstance(e, list) and e[0] == "."] and "LazyRaw" in g.locals[lf[1][0]]["ty"] for lf in leaves):
+                        bad.append((t["callee"].rsplit("::", 1)[-1], t["ln"]))
+        ctx.ob("R13.9", f"LazyRaw::{f.name}:raw-only-through-the-parse", not bad, f.loc(bad[0][1] if bad else None),
+               "the raw text is read only by the type's own accessors (kind, load)" if not bad else
+               f"the raw text is handed to {[x[0] for x in bad]}: the answer no longer comes from the parsed members (a key spelled with escapes in the source is reported absent)")
+
+
+def r13_10(ctx):
+    """the numeric view of a lazy value is produced by the one number parser (shared with C07)"""
+    from . import c07
+    ctx.include(c07.r07_14, "R13.10")
+
+
 def r13_4(ctx):
     prog = ctx.prog()
     conv = [f for f in prog.fns.values() if f.crate == "sonic_rs" and f.name == "from" and (f.self_adt or "").endswith("OwnedLazyValue") and any("LazyValue<" in x for x in f.inputs)]
@@ -597,4 +629,4 @@ def r13_w(ctx):
     witness_obligations(ctx, "R13.W", [('W3LazyValueBorrows', 'a borrowed LazyValue cannot outlive its input')])
 
 
-RULES = [("R13.1", r13_1), ("R13.2", r13_2), ("R13.3", r13_3), ("R13.4", r13_4), ("R13.5", r13_5), ("R13.6", r13_6), ("R13.6c", r13_6c), ("R13.7", r13_7), ("R13.8", r13_8), ("R13.W", r13_w)]
+RULES = [("R13.1", r13_1), ("R13.2", r13_2), ("R13.3", r13_3), ("R13.4", r13_4), ("R13.5", r13_5), ("R13.6", r13_6), ("R13.6c", r13_6c), ("R13.7", r13_7), ("R13.8", r13_8), ("R13.9", r13_9), ("R13.10", r13_10), ("R13.W", r13_w)]
